@@ -171,6 +171,12 @@ def unfold(*a, **k): pass
 def assume_builtin(*a, **k): pass
 def old(x): return x
 def implies(a, b): return (not a) or b
+
+
+def case_split(x):
+    """proof hint: split the current path on the value of the integer x over the autosplit range"""
+    return x
+
 def forall(rng, fn): return all(fn(i) for i in rng)
 def exists(rng, fn): return any(fn(i) for i in rng)
 
